@@ -152,6 +152,16 @@ HexahedralMeshTopologyKernel::add_cell(std::vector<HalfFaceHandle> _halffaces, b
         return TopologyKernel::InvalidCellHandle;
     }
 
+    // The re-ordering only succeeds for halffaces that really form a hexahedron:
+    // a side without an adjacent halfface leaves an invalid handle behind, and a
+    // closed surface of six quads that is not a cube cannot be brought into order.
+    for(const auto &hfh: ordered_halffaces) {
+        if(!hfh.is_valid()) return TopologyKernel::InvalidCellHandle;
+    }
+    if(!check_halfface_ordering(ordered_halffaces)) {
+        return TopologyKernel::InvalidCellHandle;
+    }
+
     return TopologyKernel::add_cell(std::move(ordered_halffaces), _topologyCheck);
 }
 
